@@ -130,6 +130,10 @@ func ClearRules() error {
 func LoadRules(rules []*Rule) (bool, error) {
 	rulesMap := make(map[string]*Rule, 16)
 	for _, rule := range rules {
+		if rule == nil || rule.Rule == nil {
+			logging.Warn("[Outlier LoadRules] Ignoring nil rule")
+			continue
+		}
 		rulesMap[rule.Resource] = rule
 	}
 	updateRuleMux.Lock()
@@ -263,7 +267,7 @@ func ClearRuleOfResource(res string) error {
 }
 
 func IsValidRule(r *Rule) error {
-	if r == nil {
+	if r == nil || r.Rule == nil {
 		return errors.New("nil Rule")
 	}
 	if len(r.Resource) == 0 {
